@@ -30,6 +30,7 @@ func init() {
 			"R7 one boot VMSA per digest (ESP from UnsignedSnp and LaunchDigest): between two allocations of a measurement object the ROM is measured at most once and at most one VMSA list that starts with the boot processor's VMSA is measured (an incremental computation that re-measures a full list per count is reported; measuring a tail list[k:] is not). " +
 			"R1 also: metadata ranges are measured only through the range primitive, over [section.Address, +section.Length) of one section; the single-page primitives are not called from outside the range primitives. " +
 			"R5 AP reset vector: where the SEV-ES reset block is decoded, its first result is stored into VmcbSaveArea.Rip and its second into VmcbSeg.Base of an object other than the boot processor's VMSA, by stores that dominate every successful return (a proto merge or conditional copy, which skips zero halves, is not such a store). " +
+			"R12 (T19) where the measured bytes are split into equal shares (a quotient n/d used as a stride w*q), the dividend is used again to deal with the n%d items behind the last share; otherwise the last pages are never hashed. " +
 			"R8 (= C06.R5/R7/R8, SEV constructs) every per-count launch digest is computed with options whose vCPU count is that count and whose product is the requested one, set in the same loop iteration. " +
 			"Not covered (value clauses): equality with the AMD digest chain, PAGE_INFO field values, VMSA defaults, GPA truncation constants, rejection of each malformed-metadata class. PAGE_INFO/VMSA layout is decided under C18.",
 		Assumptions: []string{"go/types, go/ssa, VTA call graph"},
@@ -51,6 +52,9 @@ func runC04(c *Ctx) {
 			}
 		}
 		c.S.Floor("R11", "constant-step loops over a slice length in sev / ovmf", 1, c.chunkScanRule("R11", fns))
+		// R12: where work on the measured bytes is split into equal shares, the remainder is not lost
+		nq := c.partitionRemainderRule("R12", fns)
+		c.S.OK("R12", "sev/ovmf:stride quotients", "", fmt.Sprintf("%d quotients used as a stride examined", nq), false)
 	}()
 	// R8 = C06.R5/R7/R8 on the SEV side: each per-count digest is computed with that count and the requested product.
 	c.borrow("R8/C06.", runC06, func(rule, construct string) bool {
